@@ -80,10 +80,10 @@ Section OpenTabProofs.
 
   Lemma In_contents : forall (es : entries) p,
       In p (contents es) <-> exists i, slot_at es i = Some p.
-  Proof.
+  Proof using.
     unfold OpenTabModel.slot_at.
     induction es as [|[q|] t IH]; simpl; intros.
-    - split; [tauto|]. intros [i H]. destruct i; discriminate.
+    - split; [intros []|]. intros [i H]. destruct i; discriminate.
     - split.
       + intros [H|H]. { exists 0. simpl. congruence. }
         apply IH in H. destruct H as [i H]. exists (S i). assumption.
